@@ -21,7 +21,11 @@ RULE = ("Hypothesis: 1-3 model names, each with 1-3 input specs (-m file, -m loo
         "files, one file addressed several times with different lookups); every file holds its samples as a top-level list or a single object, optionally wrapped under a dotted lookup "
         "path of depth 1-3; option sets expressed as argv (framework, -s, --merge, --max-strings-literals, --datetime, "
         "--strings-converters, --disable-unicode-conversion, --dict-keys-regex/-fields, --code-generator-kwargs meta=true, "
-        "--disable-str-serializable-types); input format json / yaml (the JSON text) / ini; -o on/off. Oracle: the expected text is "
+        "--disable-str-serializable-types; in a third of the cases every option in its other documented spelling; built-in generators also "
+        "through -f custom --code-generator PATH); input format json / yaml (the JSON text) / ini (with [DEFAULT], %% and %(name)s "
+        "values); -o on/off. Boosters: decoy keys equal to the dotted rest of a lookup, keys split between two --dkr patterns, three roots "
+        "whose similarity to a union differs from that to its members, exact / sub-percent thresholds, 13-17 string constants with limits "
+        "14..100. The Cli object may have served an earlier (failed or successful, differently configured) command. Oracle: the expected text is "
         "the library pipeline written out in the harness from the documented meaning of each flag (own argv -> comparators, "
         "anchored regexes, explicit string registry, generator kwargs) on the samples concatenated in argument order (for a glob: "
         "any permutation of the matched files); CLI stdout after the header statement (located with ast) must equal it exactly; "
